@@ -245,22 +245,29 @@ func (s *sut) apply(f []string) (out string) {
 		if len(f) != 3 {
 			return "bad-op"
 		}
-		return s.inboundListener(wire.Dec(f[1]), parseLabels(f[2]), nil, false, false)
+		return s.inboundListener(wire.Dec(f[1]), parseLabels(f[2]), nil, inboundOpts{})
 	case "cl":
-		if len(f) != 5 {
+		if len(f) != 6 {
 			return "bad-op"
 		}
-		return s.clientE2E(wire.Dec(f[1]), parseLabels(f[2]), wire.Dec(f[3]), f[4])
+		p, _ := strconv.ParseUint(f[5], 10, 32)
+		return s.clientE2E(wire.Dec(f[1]), parseLabels(f[2]), wire.Dec(f[3]), f[4], uint32(p))
 	case "ilh":
 		if len(f) != 3 {
 			return "bad-op"
 		}
-		return s.inboundListener(wire.Dec(f[1]), parseLabels(f[2]), nil, true, false)
+		return s.inboundListener(wire.Dec(f[1]), parseLabels(f[2]), nil, inboundOpts{hbone: true})
 	case "ils":
-		if len(f) != 5 {
+		if len(f) != 5 && len(f) != 6 {
 			return "bad-op"
 		}
-		return s.inboundListener(wire.Dec(f[1]), parseLabels(f[2]), parseIngress(f[3]), false, f[4] == "1")
+		return s.inboundListener(wire.Dec(f[1]), parseLabels(f[2]), parseIngress(f[3]),
+			inboundOpts{merge: f[4] == "1", interceptNone: len(f) == 6 && f[5] == "1"})
+	case "ilp":
+		if len(f) != 4 {
+			return "bad-op"
+		}
+		return s.inboundListener(wire.Dec(f[1]), parseLabels(f[2]), nil, inboundOpts{protos: strings.Split(f[3], ":")})
 	case "aq":
 		if len(f) != 4 {
 			return "bad-op"
